@@ -184,6 +184,15 @@ Theorem C12_comparison_blind_to_key_labelling :
 Proof. exact @canon_full_relabel. Qed.
 Print Assumptions C12_comparison_blind_to_key_labelling.
 
+(* the same for the comparison corr makes since the keys no hint mentions are dropped first (canon_cmp =
+   canon_keys after prune_keys after canon): a harmless change of the key labelling can never make corr fail *)
+Theorem C12_pruned_comparison_blind_to_key_labelling :
+  forall (L Sy : Type) (leqb : L -> L -> bool) (seqb : Sy -> Sy -> bool) (kappa : Z -> Z) (m : eregion L Sy),
+    (forall a b, kappa a = kappa b -> a = b) ->
+    canon_cmp leqb seqb (rl_region kappa m) = canon_cmp leqb seqb m.
+Proof. exact @canon_cmp_relabel. Qed.
+Print Assumptions C12_pruned_comparison_blind_to_key_labelling.
+
 Theorem C12_metadata_carried :
   forall h, valid_b h = true -> metadata_carried h (export h) = true.
 Proof. exact export_metadata_carried. Qed.
